@@ -160,7 +160,7 @@ func (t *Table) Desc() *adapt.Desc {
 	d := &adapt.Desc{Name: t.Spec.Name, Hash: t.Spec.Hash, Range: t.Spec.Range, Count: int64(len(t.Items))}
 	for _, ix := range t.Spec.Indexes {
 		src, _ := t.Source(ix.Name)
-		d.Indexes = append(d.Indexes, adapt.IndexDesc{Name: ix.Name, Local: ix.Local, Hash: ix.Hash, Range: ix.Range, Count: int64(len(src)), HasCnt: true})
+		d.Indexes = append(d.Indexes, adapt.IndexDesc{Name: ix.Name, Local: ix.Local, Hash: ix.Hash, Range: ix.Range, Count: int64(len(src)), HasCnt: true, Proj: ix.ProjType(), NonKey: append([]string(nil), ix.NonKey...)})
 	}
 	adapt.SortIndexDescs(d.Indexes)
 	return d
@@ -416,6 +416,9 @@ func compareDesc(rule string, got, want *adapt.Desc) []Diff {
 			ds = append(ds, Diff{rule + "-indexes", fmt.Sprintf("table %s index %+v, want %+v", want.Name, g, w)})
 			continue
 		}
+		if g.Proj != w.Proj || strings.Join(g.NonKey, ",") != strings.Join(w.NonKey, ",") {
+			ds = append(ds, Diff{rule + "-index-projection", fmt.Sprintf("table %s index %s is described with projection %q %v, declared %q %v", want.Name, g.Name, g.Proj, g.NonKey, w.Proj, w.NonKey)})
+		}
 		if g.HasCnt && g.Count != w.Count {
 			ds = append(ds, Diff{rule + "-index-count", fmt.Sprintf("table %s index %s ItemCount %d, want %d", want.Name, g.Name, g.Count, w.Count)})
 		}
@@ -626,7 +629,7 @@ func (c *Client) stepUpdate(op adapt.Op, got adapt.Outcome) []Diff {
 		if res&refmodel.R != 0 {
 			return nil
 		}
-		if res&refmodel.T != 0 && (updRejects || ur.Unsure) {
+		if res&refmodel.T != 0 && (updRejects || ur.Unsure || ur.OrReject) {
 			return nil
 		}
 		if res&refmodel.T == 0 {
@@ -861,8 +864,11 @@ func (c *Client) stepSearch(op adapt.Op, got adapt.Outcome) []Diff {
 	}
 	if op.Index != "" {
 		if _, ok := t.Index(op.Index); !ok {
-			// DynamoDB: ValidationException. minidyn: nil dereference. Reported by the class rule.
-			return wantReject(op, got, "unknown index")
+			// an index the table does not (or no longer) have: ValidationException, as DynamoDB answers
+			if got.Class != adapt.ClsValidation {
+				return diff("unknown-index-class", "%s on %q naming index %q, which the table does not have: got class %s (%s), want a ValidationException", op.Kind, op.Table, op.Index, got.Class, trunc(got.Msg))
+			}
+			return nil
 		}
 	}
 	want, definite, reject := t.Expected(op)
@@ -1130,13 +1136,23 @@ func (c *Client) stepBatchGet(op adapt.Op, got adapt.Outcome) []Diff {
 	}
 	want := map[string][]val.Item{}
 	for _, e := range op.Gets {
-		t, ok := c.Tables[e.Table]
+		_, ok := c.Tables[e.Table]
 		if !ok {
-			return diff("model-gap", "batchget naming a missing table is not model-checked")
+			// a request naming a table that does not exist fails as a whole
+			if got.Class != adapt.ClsNotFound {
+				return diff("batchget-missing-table", "BatchGetItem naming table %q, which does not exist: got class %s, want ResourceNotFound", e.Table, got.Class)
+			}
+			return nil
 		}
+	}
+	for _, e := range op.Gets {
+		t := c.Tables[e.Table]
 		k, kok := t.KeyCanon(e.Del)
 		if !kok {
-			return diff("model-gap", "batchget with malformed key is not model-checked")
+			if got.Class != adapt.ClsValidation {
+				return diff("batchget-malformed-key", "BatchGetItem with the malformed key %s for %s: got class %s (unprocessed %v), want a ValidationException", e.Del.Canon(), e.Table, got.Class, len(got.UnprocK[e.Table]))
+			}
+			return nil
 		}
 		if _, seen := want[e.Table]; !seen {
 			want[e.Table] = []val.Item{}
